@@ -28,6 +28,23 @@ func Oracle(sc pairsim.Scenario, tr pairsim.Trace) *evid.Failure {
 			return evid.Failf("state/call-hangs", sc, "operation %d (%s) never returned", i, op.Kind)
 		}
 	}
+	// Exchanges that ended successfully leave nothing behind on the requesting side, and not only
+	// after an expiry: read as soon as the wire has gone quiet. (Asserted for histories in which every
+	// exchange succeeded on a fault-free link; the responder legitimately keeps block-wise responses
+	// and cached replies for a while, and the block-wise caches of both sides are tidied by their
+	// expiry - one-way writes, superseded notifications - so only the client's continuation tables,
+	// per-ID locks and limiter queues are read here.)
+	if tr.EarlyRead && !abnormal(sc, tr) && len(sc.Link.FaultsAB) == 0 && len(sc.Link.FaultsBA) == 0 {
+		e := tr.EarlyCli
+		for _, it := range []struct {
+			key string
+			got int
+		}{{"token-handlers", e.TokenHandlers}, {"mid-handlers", e.MidHandlers}, {"mid-locks", e.MidLocks}, {"limiter-queues", e.LimiterQueues}} {
+			if it.got != 0 {
+				return evid.Failf("state/client-early/"+it.key, sc, "every exchange succeeded and the wire has gone quiet, yet the client connection still holds %d %s entries (before any expiry could remove them); results: %s", it.got, it.key, results(sc, tr))
+			}
+		}
+	}
 	if !tr.SizesRead {
 		return nil // a connection was closed by the scenario or by an error: nothing to read
 	}
@@ -108,7 +125,9 @@ func gen(t *rapid.T) pairsim.Scenario {
 			kinds = append(kinds, "cancelobs", "cancelobs")
 		}
 		op := pairsim.Op{Kind: rapid.SampledFrom(kinds).Draw(t, "kind"), DeadlineMs: rapid.SampledFrom([]int{200, 2000, 10000}).Draw(t, "deadline"), Async: rapid.IntRange(0, 2).Draw(t, "async") == 0}
-		sz := func(label string) int { return rapid.SampledFrom([]int{0, 1, 15, 16, 17, 100, 1025, 3000}).Draw(t, label) }
+		sz := func(label string) int {
+			return rapid.SampledFrom([]int{0, 1, 15, 16, 17, 100, 1025, 3000}).Draw(t, label)
+		}
 		switch op.Kind {
 		case "post", "put":
 			op.Up, op.Down = sz("up"), sz("down")
